@@ -243,6 +243,7 @@ def _worker(args):
     modname, case = args
     try:
         mod = importlib.import_module(modname)
+        sym.reset_bounds()      # declared variable bounds / interval caches never leak from one case into the next
         return mod.run_case(case)
     except EngineSignal as e:
         return {"prop": None, "case": case.get("name"), "error": "%s: %s\n%s" % (type(e).__name__, e, traceback.format_exc(limit=12)),
